@@ -57,17 +57,21 @@ theorem closed_upd {s : St} (hc : Closed s) {b p : Blk} (hpar : parentOf s.store
 
 /-- with an ancestor-closed store `reorg` finds the common ancestor -/
 theorem reorg_ok_of_closed (W : World U) {s : St} {hb : Blk} {C : List Blk} (h : InvC U s hb C) (hc : Closed s)
-    {b p : Blk} (hpar : parentOf s.store b = some p) (ptd : Nat) : reorg (afterTd s b ptd) hb b ≠ none := by
+    {b p : Blk} (hbU : U b.id = some b) (hpar : parentOf s.store b = some p) (ptd : Nat) :
+    reorg (afterStored s b ptd) hb b ≠ none := by
+  have hext : StoreExt s.store (afterStored s b ptd).store := (storeExt_upd h hbU).1
   obtain ⟨lp, hlp⟩ := hc _ _ (parentOf_some hpar).1
-  have hbp : Path s.store b (b :: lp) s.genesis := .cons hpar hlp
+  have hbp : Path (afterStored s b ptd).store b (b :: lp) s.genesis :=
+    .cons (parentOf_mono hext hpar) (hlp.mono hext)
+  have hhp : Path (afterStored s b ptd).store hb C s.genesis := h.path.mono hext
   have hg := h.genNum
   have hm1 : min hb.number b.number ≤ hb.number := Nat.min_le_left _ _
   have hm2 : min hb.number b.number ≤ b.number := Nat.min_le_right _ _
-  obtain ⟨O1, O2, o, hO, hO1, hO2, hon⟩ := h.path.split (min hb.number b.number) (by rw [hg]; omega) hm1
+  obtain ⟨O1, O2, o, hO, hO1, hO2, hon⟩ := hhp.split (min hb.number b.number) (by rw [hg]; omega) hm1
   obtain ⟨N1, N2, n, hN, hN1, hN2, hnn⟩ := hbp.split (min hb.number b.number) (by rw [hg]; omega) hm2
-  have hr1 : reduce s.store (hb.number + 1) hb (min hb.number b.number) = some (o, O1) := by
+  have hr1 : reduce (afterStored s b ptd).store (hb.number + 1) hb (min hb.number b.number) = some (o, O1) := by
     rw [← hon]; exact reduce_of_path hO1 _ (by have := hO1.number; omega)
-  have hr2 : reduce s.store (b.number + 1) b (min hb.number b.number) = some (n, N1) := by
+  have hr2 : reduce (afterStored s b ptd).store (b.number + 1) b (min hb.number b.number) = some (n, N1) := by
     rw [← hnn]; exact reduce_of_path hN1 _ (by have := hN1.number; omega)
   have hlen : O2.length = N2.length := by
     have h1 := hO2.number
@@ -76,13 +80,12 @@ theorem reorg_ok_of_closed (W : World U) {s : St} {hb : Blk} {C : List Blk} (h :
   obtain ⟨r, hr⟩ := walkBoth_of_paths hO2 n N2 hN2 hlen (min hb.number b.number + 1) (by have := hO2.number; omega)
   obtain ⟨c, oc, nc⟩ := r
   unfold reorg
-  have hst : (afterTd s b ptd).store = s.store := rfl
-  simp only [hst, hr1, hr2, hr]
+  simp only [hr1, hr2, hr]
   simp
 
 /-- the fields of the state after a canonical write -/
 theorem afterCanon_fields {s s2 : St} {b cur : Blk} {ptd : Nat}
-    (hs2 : s2 = afterTd s b ptd ∨ reorg (afterTd s b ptd) cur b = some s2) :
+    (hs2 : s2 = afterTd s b ptd ∨ reorg (afterStored s b ptd) cur b = some s2) :
     (afterCanon s2 b).head = b.id ∧ (afterCanon s2 b).td = upd s.td b.id (some (ptd + b.diff)) ∧
     (afterCanon s2 b).seen = updB s.seen b.id true ∧ (afterCanon s2 b).store = upd s.store b.id (some b) ∧
     (afterCanon s2 b).genesis = s.genesis := by
@@ -90,7 +93,8 @@ theorem afterCanon_fields {s s2 : St} {b cur : Blk} {ptd : Nat}
   · subst hs2; simp [afterCanon, insertHead, afterTd]
   · obtain ⟨o, n, c, c', oc1, nc1, oc2, nc2, _, _, _, _, _, _, _, _, hs2⟩ := reorg_spec hr
     subst hs2
-    simp [afterCanon, insertHead, reorgApply_td, reorgApply_seen, reorgApply_store, reorgApply_genesis, afterTd]
+    simp [afterCanon, insertHead, reorgApply_td, reorgApply_seen, reorgApply_store, reorgApply_genesis, afterStored,
+      afterTd]
 
 theorem good_stable (W : World U) (g : Blk) (t0 : Nat) : Stable U (Good U g t0) True where
   inv := fun _ h => h.1
@@ -113,7 +117,7 @@ theorem good_stable (W : World U) (g : Blk) (t0 : Nat) : Stable U (Good U g t0) 
       exfalso
       rw [hI.headStored] at hcur
       cases hcur
-      exact reorg_ok_of_closed W hI hcl hpar ptd hr
+      exact reorg_ok_of_closed W hI hcl hbU hpar ptd hr
     · -- canonical
       rw [he]
       refine ⟨fun hok => ?_, fun _ => by simp⟩
